@@ -107,21 +107,43 @@ def run(ctx):
                 e = eb.rvalue(st["rv"])
                 if any(x.k == "field" and x[3] == "match_count" for x in walk(e)):
                     amt = e[3] if any(x.k == "field" and x[3] == "match_count" for x in walk(e[2])) else e[2]
-                    if W.const_val(amt) == 1:
-                        continue
-                    if any(is_call(x, "core::cmp::max", "core::cmp::Ord::max") and
-                           any(W.const_val(a) == 1 for a in x[3]) for x in walk(amt)):
-                        continue
-                    zero.append(bb)
+
+                    def alts(x):
+                        x = strip(x)
+                        return [z for y in x[2] for z in alts(y)] if x.k == "phi" else [x]
+                    for one in alts(amt):
+                        if W.const_val(one) == 1:
+                            continue
+                        if any(is_call(x, "core::cmp::max", "core::cmp::Ord::max") and
+                               any(W.const_val(a) == 1 for a in x[3]) for x in walk(one)):
+                            continue
+                        zero.append(bb)
         if zero:
             r.bad("summary|at-least-one", "SummarySink::matched adds the number of matches its own re-search finds, which can be 0 "
                   "for a match the searcher delivered: `printf ' ' > f; rg -U -q '$' f` exits 1 although `rg -U '$' f` prints the "
                   "line", fn=f, construct="summary-count")
         else:
             r.ok("summary|at-least-one", "every delivered match adds at least 1 to match_count", fn=f)
+        # under inversion what is added is the constant 1, wherever the amount is chosen (two additions, or one addition of
+        # a value picked before)
+        from ..flow import operand_at
+        sxi = Sccp(f, call_model=lambda c, argv: I(1) if c.is_("grep_searcher::searcher::Searcher::invert_match") else None).run([(0, {})])
+        inv_ok, nadd = True, 0
+        for bb, j, st in f.stmts():
+            if st["k"] == "assign" and st["rv"]["k"] == "bin" and st["rv"]["op"] in ("Add", "AddWithOverflow") and bb in sxi.exec_blocks:
+                ea, eb_ = eb.operand(st["rv"]["a"]), eb.operand(st["rv"]["b"])
+                if any(x.k == "field" and x[3] == "match_count" for x in walk(ea)):
+                    amt_op = st["rv"]["b"]
+                elif any(x.k == "field" and x[3] == "match_count" for x in walk(eb_)):
+                    amt_op = st["rv"]["a"]
+                else:
+                    continue
+                nadd += 1
+                if operand_at(sxi, bb, st, amt_op) != I(1):
+                    inv_ok = False
         if not varadd:
             r.ok("summary|invert", "no per-match addition to match_count", fn=f, nontrivial=False)
-        elif inv and not guarded(f, varadd, inv, False):
+        elif f.calls_to("grep_searcher::searcher::Searcher::invert_match") and nadd and inv_ok:
             r.ok("summary|invert", "per-match counting only when the search is not inverted", fn=f)
         else:
             r.bad("summary|invert", "SummarySink::matched adds the number of re-discovered matches to the count even when the search "
